@@ -105,9 +105,11 @@ func (w *vwaker) Broadcast() {
 // and logstream) and the line consumer are parked.  close() makes woken
 // goroutines runnable before it returns, so a goroutine that has been woken
 // and not yet finished its round is never reported as parked.
+var stackBuf = make([]byte, 256<<10)
+
 func settle() bool {
-	buf := make([]byte, 1<<20)
-	deadline := time.Now().Add(5 * time.Second)
+	buf := stackBuf
+	deadline := time.Now().Add(2 * time.Second)
 	for {
 		n := runtime.Stack(buf, true)
 		ok := true
@@ -121,8 +123,12 @@ func settle() bool {
 				break
 			}
 			st := g[i+1 : j]
-			if !(strings.HasPrefix(st, "select") || strings.HasPrefix(st, "chan receive") ||
-				strings.HasPrefix(st, "semacquire") || strings.HasPrefix(st, "sync.")) {
+			// parked for good: in a select (the waker), receiving from a
+			// channel, or in WaitGroup.Wait.  A goroutine queueing for a
+			// mutex is only transiently blocked.
+			wgWait := (strings.HasPrefix(st, "semacquire") || strings.HasPrefix(st, "sync.WaitGroup")) &&
+				strings.Contains(g, "sync.(*WaitGroup).Wait")
+			if !(strings.HasPrefix(st, "select") || strings.HasPrefix(st, "chan receive") || wgWait) {
 				ok = false
 				break
 			}
@@ -315,9 +321,12 @@ func execute(root string, serial int, c *Case) {
 	for p := range names {
 		idx[m.path(p)] = p
 	}
-	observe := func() {
-		if !settle() {
+	observe := func(wait bool) {
+		// file-system operations start nothing in the tailer (it only acts on
+		// wake-ups), so only construction and polls need to be waited for
+		if wait && !c.Hang && !settle() {
 			c.Hang = true
+			leaked++ // some goroutine of this tailer never parks: no later settle() can succeed
 		}
 		o := Obs{Tailed: []int{}, LogCount: tailer.VerifLogCount() - base}
 		for _, k := range ta.VerifTailed() {
@@ -330,8 +339,11 @@ func execute(root string, serial int, c *Case) {
 		sort.Ints(o.Tailed)
 		c.Obs = append(c.Obs, o)
 	}
-	observe()
+	observe(true)
 	for k, o := range c.Ops {
+		if c.Hang {
+			break
+		}
 		switch o.K {
 		case "poll":
 			pw.Broadcast()
@@ -340,7 +352,7 @@ func execute(root string, serial int, c *Case) {
 		default:
 			m.apply(o, 10+k)
 		}
-		observe()
+		observe(o.K == "poll" || o.K == "spoll")
 	}
 	// final tree
 	for p := range names {
@@ -392,8 +404,10 @@ func execute(root string, serial int, c *Case) {
 	case <-fin:
 		<-r.done
 	case <-time.After(2 * time.Second):
+		if !c.Hang {
+			leaked++
+		}
 		c.Hang = true
-		leaked++
 		go func() { // keep draining so that nothing else blocks
 			for range lines {
 			}
@@ -401,9 +415,11 @@ func execute(root string, serial int, c *Case) {
 	}
 }
 
+var errOut *os.File
+
 func must(err error) {
 	if err != nil {
-		fmt.Fprintln(os.Stderr, "c18:", err)
+		fmt.Fprintln(errOut, "c18:", err)
 		os.Exit(3)
 	}
 }
@@ -444,6 +460,9 @@ func checkOracle(out *vlib.Out, c *Case) {
 	hasRename := false
 	seen := map[string]bool{}
 	check := func(step int, kind string) {
+		if step >= len(c.Obs) {
+			return
+		}
 		o := c.Obs[step]
 		if int(o.LogCount) != len(o.Tailed) {
 			report("log-count-differs-from-tailed-paths", fmt.Sprintf("after step %d log_count=%d but %d paths are tailed %v", step, o.LogCount, len(o.Tailed), o.Tailed))
@@ -488,8 +507,9 @@ func checkOracle(out *vlib.Out, c *Case) {
 			hasRename = true
 			s, d := tree[o.P], tree[o.Q]
 			if o.P != o.Q && s.kind != 0 {
-				sdir, ddir := s.kind == 2, d.kind == 2
-				if d.kind == 0 || sdir == ddir {
+				// os.Rename refuses an existing directory as target, and a
+				// directory cannot replace a file
+				if d.kind == 0 || (s.kind != 2 && d.kind != 2) {
 					tree[o.Q] = s
 					tree[o.P] = node{}
 				}
@@ -534,21 +554,29 @@ func checkOracle(out *vlib.Out, c *Case) {
 			if k >= c.NGen && o.K == "append" {
 				if n := tree[o.P]; n.kind == 1 || n.kind == 3 {
 					idxn := cnt[n.ino]
-					got := 0
+					own, other := 0, 0
 					for _, d := range c.Delivered {
 						if d[1] == n.ino && d[2] == idxn {
-							got++
-							if d[0] != o.P {
-								report("line-forwarded-under-wrong-path", fmt.Sprintf("probe line of %s arrived under %s", names[o.P], pname(d[0])))
+							if d[0] == o.P {
+								own++
+							} else {
+								other++
 							}
 						}
 					}
+					// a stream that still holds the file under the name it had
+					// before a rename forwards it under that name: only without
+					// renames must every copy carry the file's own path
+					if other > 0 && !hasRename {
+						report("line-forwarded-under-wrong-path", fmt.Sprintf("probe line of %s arrived under another path", names[o.P]))
+					}
 					if n.kind == 1 && matches(o.P) && !c.Ign[o.P] {
-						if got == 0 {
-							report("line-not-delivered", fmt.Sprintf("%s is a readable matching file at the pattern poll, a line appended afterwards was never forwarded", names[o.P]))
-						} else if got > 1 {
-							report("line-delivered-twice", fmt.Sprintf("probe line of %s was forwarded %d times", names[o.P], got))
+						if own == 0 {
+							report("line-not-delivered", fmt.Sprintf("%s is a readable matching file at the pattern poll, a line appended afterwards was never forwarded under its path", names[o.P]))
 						}
+					}
+					if own > 1 {
+						report("line-delivered-twice", fmt.Sprintf("probe line of %s was forwarded %d times under its path", names[o.P], own))
 					}
 				}
 			}
@@ -566,7 +594,7 @@ func checkOracle(out *vlib.Out, c *Case) {
 				t[o.P] = node{}
 			case "rename":
 				s, d := t[o.P], t[o.Q]
-				if o.P != o.Q && s.kind != 0 && (d.kind == 0 || (s.kind == 2) == (d.kind == 2)) {
+				if o.P != o.Q && s.kind != 0 && (d.kind == 0 || (s.kind != 2 && d.kind != 2)) {
 					t[o.Q] = s
 					t[o.P] = node{}
 				}
@@ -689,6 +717,11 @@ func fullAlphabet(chmod bool) []Op {
 
 func main() {
 	a := vlib.ParseArgs()
+	// glog writes to os.Stderr; a stream that spins logs gigabytes
+	errOut = os.Stderr
+	if null, err := os.OpenFile(os.DevNull, os.O_WRONLY, 0); err == nil {
+		os.Stderr = null
+	}
 	out := vlib.NewOut(a, "From V Require Import Corr.Run_C18.", "c18case", 1000)
 	rng := vlib.NewRand(a.Seed)
 	dropDacOverride()
@@ -721,9 +754,10 @@ func main() {
 	}
 
 	serial := 0
+	limit, _ := strconv.Atoi(os.Getenv("C18_LIMIT"))
 	runCase := func(c *Case, tag string) {
-		if leaked >= 4 {
-			return // leaked streams spin; enough evidence has been recorded
+		if leaked >= 1 || (limit > 0 && serial >= limit) {
+			return // a leaked stream never parks again, so nothing further can be serialised
 		}
 		c.Kind = "hist"
 		c.NGen = len(c.Ops)
